@@ -51,6 +51,7 @@ type decProtoCase struct {
 	Fault  bool   `json:"fault,omitempty"` // error-path alphabet (see dpFaultAlphabet)
 	Ref    bool   `json:"ref,omitempty"`   // PAR1: the set is written by the independent reference writer (comment in the index, an entry not saved in the parity set between the saved ones, a zero-length file) instead of by gopar's Create
 	Disk   bool   `json:"disk,omitempty"`  // exported constructors on a real directory (else: the same objects on the owned in-memory filesystem)
+	One    bool   `json:"one,omitempty"`   // the set has ONE recovery block in ONE recovery file (PAR1: one volume): with "delete the first recovery file" no recovery file at all is left
 }
 
 const (
@@ -149,7 +150,7 @@ func decProtoOne(c *decProtoCase, seq []int, r *core.Rec, wrap func(*decProtoCas
 		for _, o := range seq {
 			ops = append(ops, dpNames[o])
 		}
-		r.ViolateWith("decoder-protocol:"+sig, fmt.Sprintf(f, a...)+"\nsequence: "+strings.Join(ops, ", "), wrap(&decProtoCase{Fmt: c.Fmt, Seq: append([]int{}, seq...), Disk: c.Disk, Ref: c.Ref, Fault: c.Fault}))
+		r.ViolateWith("decoder-protocol:"+sig, fmt.Sprintf(f, a...)+"\nsequence: "+strings.Join(ops, ", "), wrap(&decProtoCase{Fmt: c.Fmt, Seq: append([]int{}, seq...), Disk: c.Disk, Ref: c.Ref, Fault: c.Fault, One: c.One}))
 	}
 	var p2 *scen.P2Set
 	var p1 *scen.P1Set
@@ -158,7 +159,11 @@ func decProtoOne(c *decProtoCase, seq []int, r *core.Rec, wrap func(*decProtoCas
 	var fs0 *envfs.FS
 	var index string
 	if c.Fmt == "p2" {
-		s, err := scen.GetP2(scen.P2Config{Sizes: []int{11, 6}, Slice: 4, Blocks: 3, Class: "uniq"}, r.Seed)
+		nb := 3
+		if c.One {
+			nb = 1
+		}
+		s, err := scen.GetP2(scen.P2Config{Sizes: []int{11, 6}, Slice: 4, Blocks: nb, Class: "uniq"}, r.Seed)
 		if err != nil {
 			viol("setup-failed", "%v", err)
 			return
@@ -171,7 +176,11 @@ func decProtoOne(c *decProtoCase, seq []int, r *core.Rec, wrap func(*decProtoCas
 		s := decProtoRefSet(r.Seed)
 		p1, paths, datas, vols, fs0, index = s, s.Paths, s.Data, s.VolPaths, s.FS0, s.Index
 	} else {
-		s, err := scen.GetP1(scen.P1Config{Sizes: []int{7, 0}, Volumes: 2}, r.Seed)
+		nv := 2
+		if c.One {
+			nv = 1
+		}
+		s, err := scen.GetP1(scen.P1Config{Sizes: []int{7, 0}, Volumes: nv}, r.Seed)
 		if err != nil {
 			viol("setup-failed", "%v", err)
 			return
